@@ -122,6 +122,14 @@ def from_desc(d):
     if t is dict:
         if 'f' in d:
             return float(d['f'])
+        if 'deep' in d:
+            # a chain of nested containers, kept compact in traces (a
+            # descriptor nested that deep would not survive pickle / json)
+            depth, leaf = d['deep']
+            v = {'leaf': leaf}
+            for i in range(depth):
+                v = {'n': v} if i % 7 else {'a': [v]}
+            return v
         if 'isub' in d:
             return IntSub(d['isub'])
         if 'ienum' in d:
